@@ -527,6 +527,12 @@ func (s Segment) forRewrite() (*RewriteSegment, error) {
 }
 
 func (src Segment) Rewrite(dropOffsets map[int64]struct{}, params index.Params, mversion message.Version, iversion index.Version) (*RewriteSegment, error) {
+	return src.RewriteUpTo(-1, dropOffsets, params, mversion, iversion)
+}
+
+// RewriteUpTo is like Rewrite, but when limit is not negative it only reads the first limit bytes of the log.
+// Use it for a log that is being appended to: what is after limit might be only partly written.
+func (src Segment) RewriteUpTo(limit int64, dropOffsets map[int64]struct{}, params index.Params, mversion message.Version, iversion index.Version) (*RewriteSegment, error) {
 	dst, err := src.forRewrite()
 	if err != nil {
 		return nil, err
@@ -550,6 +556,10 @@ func (src Segment) Rewrite(dropOffsets map[int64]struct{}, params index.Params, 
 	var indexTime int64
 	var dstIndex []index.Item
 	for {
+		if limit >= 0 && srcPosition >= limit {
+			break
+		}
+
 		msg, nextSrcPosition, err := srcLog.Read(srcPosition)
 		if err != nil {
 			if errors.Is(err, io.EOF) {
